@@ -81,6 +81,10 @@ pub enum Variation {
     /// delivered items (the old iterator is abandoned, its threads are still winding down while
     /// the new ones start); the new stream must be the stream of a fresh loader
     Reiterate { m: usize, t: u8, b: usize },
+    /// two loaders in one process (training + validation): a second loader over the first k
+    /// lines (its own threads and buffer) is created first and consumed alternately with the
+    /// observed one, whose stream must still be the stream of a loader that lives alone
+    Coexist { k: usize, t: u8, b: usize, tc: u8, bc: usize },
 }
 
 #[derive(Serialize, Deserialize, Clone, Debug)]
@@ -217,6 +221,8 @@ struct Inst {
     crash_after: Option<usize>,
     /// call iter() again after at least this many delivered items and report only the second stream
     reiterate_after: Option<usize>,
+    /// a companion loader (limit, num_threads, buffer_size) living in the same process
+    companion: Option<(usize, u8, usize)>,
 }
 
 #[derive(Clone, Debug)]
@@ -388,7 +394,10 @@ impl Scenario for C08 {
                     continue;
                 }
                 if explicit_targets && rng.chance(0.45) {
-                    let input = if !earlier_inputs.is_empty() && rng.chance(0.7) {
+                    let input = if rng.chance(0.08) {
+                        // degenerate sources
+                        rng.pick(&["", " ", "a"]).to_string()
+                    } else if !earlier_inputs.is_empty() && rng.chance(0.7) {
                         rng.pick(&earlier_inputs).clone()
                     } else {
                         format!("source text {} ab ba", rng.below(4))
@@ -462,6 +471,11 @@ impl Scenario for C08 {
         if rng.chance(0.25) {
             let (t, b) = gen_tb(&mut rng);
             variations.push(Variation::Reiterate { m: rng.usize(0, total), t, b });
+        }
+        if rng.chance(0.25) {
+            let (t, b) = gen_tb(&mut rng);
+            let (tc, bc) = gen_tb(&mut rng);
+            variations.push(Variation::Coexist { k: rng.usize(0, total), t, b, tc, bc });
         }
         let weighted_ok = files.iter().all(|f| !f.is_empty());
         let strategy = match rng.below(3) {
@@ -690,7 +704,7 @@ impl Scenario for C08 {
                     }
                 };
                 match &mut c.variations[vi] {
-                    Variation::Same { t, b } | Variation::Reiterate { t, b, .. } => {
+                    Variation::Same { t, b } | Variation::Reiterate { t, b, .. } | Variation::Coexist { t, b, .. } => {
                         let mut tb = (*t, *b);
                         z(&mut tb);
                         *t = tb.0;
@@ -783,6 +797,7 @@ impl C08 {
             ff: 0,
             crash_after: None,
             reiterate_after: None,
+            companion: None,
         }
     }
 }
@@ -833,6 +848,18 @@ impl Exec<'_> {
             limit: inst.limit,
             distributed: inst.distributed,
         };
+        let companion_args = inst.companion.map(|(k, tc, bc)| {
+            let mut a = args.clone();
+            a.skip = 0;
+            a.limit = Some(k);
+            a.distributed = None;
+            a.num_threads = tc;
+            a.buffer_size = bc;
+            a
+        });
+        if companion_args.is_some() {
+            self.stats.fault("second_loader_in_the_same_process");
+        }
         let epoch = sc.epoch;
         let ff = inst.ff;
         let crash_after = inst.crash_after;
@@ -845,6 +872,20 @@ impl Exec<'_> {
         let slot: Slot = Arc::new(Mutex::new((vec![], None)));
         let slot2 = slot.clone();
         let r = run_process(&spec, move || {
+            let mut other = match companion_args {
+                None => None,
+                Some(a) => match TrainLoaderDriver::new(a) {
+                    Ok(mut d) => {
+                        d.set_epoch(epoch);
+                        if d.iter().is_err() {
+                            None
+                        } else {
+                            Some(d)
+                        }
+                    }
+                    Err(_) => None,
+                },
+            };
             let mut drv = match TrainLoaderDriver::new(args) {
                 Ok(d) => d,
                 Err(e) => {
@@ -890,6 +931,12 @@ impl Exec<'_> {
                         break;
                     }
                 }
+                if let Some(o) = other.as_mut() {
+                    // the validation loader is consumed in between
+                    if !matches!(o.next_batch(), Ok(Some(_))) {
+                        other = None; // exhausted: dropped while the observed loader is still running
+                    }
+                }
                 match drv.next_batch() {
                     Ok(Some(items)) => {
                         rt::log(Kind::Batch, bno, items.len() as u64);
@@ -910,6 +957,7 @@ impl Exec<'_> {
             }
             rt::log(Kind::Drop, delivered as u64, 0);
             drop(drv);
+            drop(other);
             rt::wait_threads_exit();
         });
         self.stats.absorb_proc(&r);
@@ -1096,6 +1144,24 @@ impl Exec<'_> {
                         return Some(diff_batches("reiterate", "R0", &r0, &i.label, &o));
                     }
                     self.stats.probe("second_iter_streams_confirmed", 1);
+                }
+                Variation::Coexist { k, t, b, tc, bc } => {
+                    let mut i = base.clone();
+                    i.label = format!("next to a second loader(limit={k},T={tc},B={bc}) (T={t},B={b})");
+                    i.t = *t;
+                    i.b = *b;
+                    i.companion = Some((*k, *tc, *bc));
+                    let o = self.run(&i);
+                    if let Some(x) = self.ended_ok(&i, &o) {
+                        return Some(x);
+                    }
+                    if self.diverged {
+                        return None;
+                    }
+                    if o.batches != r0.batches {
+                        return Some(diff_batches("coexist", "R0", &r0, &i.label, &o));
+                    }
+                    self.stats.probe("streams_next_to_a_second_loader_confirmed", 1);
                 }
                 Variation::World { ranks } => {
                     let ws = ranks.len();
